@@ -45,6 +45,10 @@ func replay(cw *caseWriter, path string) {
 					os.RemoveAll(dir)
 				}
 			}
+		case 103:
+			in2, obs, leaders := c101RunT(in, true, in[0]+1)
+			c102monitorS(cw, tag, in2, obs, true)
+			cw.emit(tag, 103, in2, obs, leaders >= 1)
 		case 102:
 			in2, obs, leaders := c101Run(in, true)
 			c102monitor(cw, tag, in2, obs)
@@ -113,6 +117,10 @@ func main() {
 		c15failChild(os.Args[2:])
 		return
 	}
+	if len(os.Args) >= 2 && os.Args[1] == "c103batch" {
+		c103Batch()
+		return
+	}
 	if len(os.Args) >= 2 && os.Args[1] == "c102batch" {
 		c102Batch()
 		return
@@ -174,6 +182,8 @@ func main() {
 		runC15(cw, tier, seed)
 	case "c15fail":
 		runC15fail(cw, tier, seed)
+	case "c103":
+		runC103(cw, tier, seed, 0)
 	case "c102":
 		runC102(cw, tier, seed, 0)
 	case "c101":
